@@ -450,6 +450,30 @@ def r5b_reader_constants(ctx, f, rep):
     rep.check(seen == {'one-trailing-byte', 'announce-with-payload'}, 'C07-R5', hd.nname, 'both rejection classes exist and no '
               'other', construct='reader-malformed-classes', facts={'classes': sorted(seen)})
     rep.floor('C07-R5', n, 2, 'MalformedPacket returns after the header')
+    # size limit: the writer may fill the packet to exactly max_packet_size, so the reader must refuse only what is larger
+    nb = 0
+    for p in ctx.paths(f, hd, 'none'):
+        calls = {c['id']: c for c in p.calls()}
+        cs = p.conds()
+        if not cs:
+            continue
+        nrm = q.cmp_norm(cs[0])
+        if nrm is None:
+            continue
+        rel, a, b_ = nrm
+        isrem = lambda v: v[0] == 'call' and v[1] in calls and calls[v[1]]['res'].endswith('remaining')
+        ismax = lambda v: q.loads_self_field(v, 'config', 'max_packet_size')
+        toobig = p.end == 'return' and p.ret[0] == 'agg' and p.ret[3] == 'Err' and q.variant_name(p.ret[5][0]) == 'DataTooBig'
+        if (isrem(a) and ismax(b_)) or (isrem(b_) and ismax(a)):
+            nb += 1
+            if toobig:
+                good = rel == 'gt' and isrem(a) and ismax(b_)
+            else:
+                good = rel == 'ge' and ismax(a) and isrem(b_)
+            rep.check(good, 'C07-R5', hd.nname, 'DataTooBig iff the datagram is strictly larger than max_packet_size (a datagram '
+                      'of exactly max_packet_size, which the writer can emit, is accepted)', site=cs[0]['span'],
+                      construct='size-limit-strict:%s' % ('reject' if toobig else 'accept'))
+    rep.floor('C07-R5', nb, 2, 'paths through the size check')
     hc = f.fn('Foca::handle_custom_broadcasts')
     thresholds = set()
     for p in ctx.paths(f, hc, 'none'):
